@@ -79,6 +79,9 @@ open Proto
 structure MSt where
   ts : List TSt := []
   hints : List Obj := []
+  /-- invocation counters of the scripted listener reactions: one script for the whole scenario,
+  whichever transform a listener is called from -/
+  calls : Dict (Obj × String) Nat := []
   out : List String := []
 
 def parseField : String → Option Field
@@ -107,7 +110,7 @@ def stepLine (U : Universe) (held : List Obj) (m : MSt) (toks : List String) : O
       match m.ts[i]? with
       | none => none
       | some t =>
-        let t := { t with d := { t.d with hints := m.hints, log := [] } }
+        let t := { t with d := { t.d with hints := m.hints, calls := m.calls, log := [] } }
         let r : Option (TSt × List String) :=
           match rest with
           | ["set", f, v] => (parseField f).map fun f =>
@@ -118,13 +121,13 @@ def stepLine (U : Universe) (held : List Obj) (m : MSt) (toks : List String) : O
               let (d, o) := execOp U defaultFuel t.d op
               ({ t with d := d }, (d.log.reverse.map showEntry) ++ [s!"res {showOutcome o}"])
         r.map fun (t', lines) =>
-          { ts := m.ts.set i t', hints := t'.d.hints, out := m.out ++ lines.map (s!"t{i} " ++ ·) }
+          { ts := m.ts.set i t', hints := t'.d.hints, calls := t'.d.calls, out := m.out ++ lines.map (s!"t{i} " ++ ·) }
   | _ => none
 
 def runScenario (lines : List String) : List String :=
   -- declarations (class/obj/hint) are parsed by the dispatcher model's parser
   let decl := lines.filter fun l => match tokens l with
-    | "class" :: _ => true | "obj" :: _ => true | "hint" :: _ => true | _ => false
+    | "class" :: _ => true | "obj" :: _ => true | "hint" :: _ => true | "react" :: _ => true | _ => false
   let p := decl.foldl Disp.parseLine {}
   if p.bad then ["bad-op"] else
   let U := p.universe
